@@ -4,6 +4,18 @@ import json, os
 HERE = os.path.dirname(os.path.abspath(__file__))
 TECH = "bounded symbolic execution of rustc MIR of /repo (mirsym, own MIR->SMT engine) decided by z3; cvc5 + z3-4.8.12 re-decide every VC in the thorough tier; counterexamples replayed natively before reporting"
 CHECKS = {
+ 'C03': dict(
+   text="Bounded model checking of the real content path (ContentCollector, State::collect_header/collect_body, Delivery/Return/Get constructors and the dispatch arms, from MIR): a start method, a header announcing a symbolic size and up to K body frames of symbolic lengths on one channel with a frame of another channel interleaved; after every prefix the content must have been handed over exactly when the announced size was reached, exactly once, to its addressee (consumer by tag / pending get / return listener), as the body frames in order and contiguous with the sent metadata and the header's properties, overrun being FrameUnexpected; plus one step from every collector state showing frames of other channels leave the collector untouched (interleaving independence by induction), and consumer queues unbounded / non-blocking.",
+   note="K body frames per message (evidence.bounds); byte contents are tracked as chunk identities and lengths, not bit-blasted; stream segmentation is C06; queue FIFO trusted. Native replay by observation equality (body chunks carry distinct byte values) and sampled translator validation.",
+   ref="DESIGN.md §4 C03"),
+ 'C04': dict(
+   text="Bounded model checking from MIR of both halves of a synchronous call: the dispatcher routes every reply-type frame (all -Ok methods, ConsumeOk, CancelOk, GetEmpty, Channel.CloseOk) on channel n, unchanged, to slot n's reply queue only (two channels, symbolic ids and fields); IoLoopHandle::call sends exactly one request frame on its own channel and returns exactly the reply's value when its type matches (every TryFromAmqpClass impl), FrameUnexpected otherwise, the queued error if any; get/consume likewise; nowait variants never read the reply queue.",
+   note="Overlapping calls from several threads are represented by the arbitrary order of reply frames across channels (routing depends on the frame's channel id only); at most one outstanding call per channel is a type-system fact; the public methods built on call() are covered by C12.",
+   ref="DESIGN.md §4 C04"),
+ 'C11': dict(
+   text="Bounded model checking of consumer lifecycles through the real dispatcher (MIR): every history of K symbolic frames over {ConsumeOk, Deliver + empty header, server Cancel (nowait or not), CancelOk, Channel.Close/CloseOk, Connection.Close/CloseOk} and every prefix of it; the consumer's queue must be the deliveries addressed to its tag while registered (in order, fields intact) followed by exactly one terminal message naming the true cause, after which it is disconnected; server cancel answered with CancelOk iff !nowait; consumers created during the history obey the same shape.",
+   note="History length K (evidence.bounds), one pre-registered consumer plus those created by ConsumeOk; callers take replies as they arrive (synchronous calls); Consumer::cancel idempotence / Drop are API-side. Native replay by observation equality.",
+   ref="DESIGN.md §4 C11"),
  'C07': dict(
    text="Bounded model checking of one step of the real frame dispatcher (ConnectionState::process with the collector, routing and client-exception code it calls, from MIR) from every collector state of a two-channel Steady connection over a fully symbolic AMQPFrame (every arm, every channel id, every field value), against a complete outcome table (which error / client exception / Ok each (state, frame) pair must produce) and effect conditions (nothing delivered on a violation, Connection.Close with the matching hard-error code as last frame, sealed buffer, later frames ignored).",
    note="One step per state family, not arbitrary-length sequences: longer sequences are covered only through the state families (collector states None/Start/Body per kind, ClientException). Two open channels, one consumer each; reply/consumer receivers alive; HashMap as association list, crossbeam queues, Vec<u8> lengths and amq-protocol frame generators are summaries; frame bytes themselves (parsing) are C06.",
